@@ -1,6 +1,6 @@
 (* C03 - Validation never accepts an ill-formed or wrong-checksum mnemonic. *)
 From B39 Require Import Proofs.Calls.
-From B39 Require Import Lib.Base Lib.Sha256 Lib.Nfkd Model.GenTypes Model.Model Spec.Bip39Spec.
+From B39 Require Import Lib.Base Lib.Utf8 Lib.Sha256 Lib.Nfkd Model.GenTypes Model.Model Spec.Bip39Spec.
 From B39 Require Import Proofs.Tables Proofs.LibContract Proofs.Sound Proofs.Api Proofs.Count Proofs.Exact.
 
 (* every string, each declared language, every normaliser meeting the library contract:
@@ -28,10 +28,11 @@ Theorem C03_count : forall lib, lib_contract lib -> forall (name : string) (l : 
                  (seq 0 2048)) = (2 ^ (11 - n / 3))%nat.
 Proof. exact last_word_count. Qed.
 
-(* the accept set exactly (C02 and C03 together): a string is accepted iff its NFKD form is the
-   U+0020-joined BIP39 sentence (over the canonical list) of some entropy of 16/20/24/28/32 bytes *)
+(* the accept set exactly (C02 and C03 together): a string is accepted iff it is valid UTF-8 and its NFKD form is
+   the U+0020-joined BIP39 sentence (over the canonical list) of some entropy of 16/20/24/28/32 bytes *)
 Theorem C03_exact : forall lib, lib_contract lib -> forall (name : string) (l : Z) (s : list byte), supported name l ->
-  (CheckMnemonicL lib s l = Ret None <-> exists ent, valid_ent (length ent) /\ nfkd s = plain_sentence name ent).
+  (CheckMnemonicL lib s l = Ret None <->
+   utf8_valid s = true /\ exists ent, valid_ent (length ent) /\ nfkd s = plain_sentence name ent).
 Proof. exact accepted_iff_encoding. Qed.
 
 (* the functions this property is about, and every package function they reach, call only what the model
